@@ -18,10 +18,64 @@ use std::io::{BufRead, BufReader, BufWriter, Write};
 use tab::Tab;
 use volute::Lut;
 
-fn run_episode<T: Tab>(ops: &[Value], out: &mut Vec<Value>) {
+fn run_episode<T: Tab + Send>(ops: &[Value], out: &mut Vec<Value>) {
     let mut st: State<T> = State::new();
     for op in ops {
+        if op.get("derived").is_some() {
+            continue; // recorded expansion of a rand_begin (replay of a trace): regenerated below
+        }
+        if op["op"] == "rand_begin" {
+            rand_batch::<T>(op, out);
+            continue;
+        }
         out.push(st.exec(op));
+    }
+}
+
+/// C19: `threads` concurrent threads each draw `count` random tables of `n` variables.  One
+/// `random` event per draw (tagged with its thread and its per-thread sequence number; no order
+/// between threads is implied), then `rand_end`.
+fn rand_batch<T: Tab + Send>(op: &Value, out: &mut Vec<Value>) {
+    let n = exec::arg_usize(op, "n");
+    let threads = exec::arg_usize(op, "threads");
+    let count = exec::arg_usize(op, "count");
+    let mut hdr = op.as_object().unwrap().clone();
+    hdr.insert("ty".into(), json!(T::TY));
+    hdr.insert("out".into(), json!("ok"));
+    out.push(Value::Object(hdr));
+    let results: Vec<Vec<Value>> = if threads <= 1 {
+        vec![(0..count).map(|_| draw::<T>(n)).collect()]
+    } else {
+        let barrier = std::sync::Arc::new(std::sync::Barrier::new(threads));
+        let handles: Vec<_> = (0..threads)
+            .map(|_| {
+                let b = barrier.clone();
+                std::thread::spawn(move || {
+                    b.wait();
+                    (0..count).map(|_| draw::<T>(n)).collect::<Vec<Value>>()
+                })
+            })
+            .collect();
+        handles.into_iter().map(|h| h.join().expect("HARNESS: thread")).collect()
+    };
+    for (t, evs) in results.into_iter().enumerate() {
+        for (k, mut e) in evs.into_iter().enumerate() {
+            let m = e.as_object_mut().unwrap();
+            m.insert("thr".into(), json!(t));
+            m.insert("seq".into(), json!(k));
+            m.insert("ty".into(), json!(T::TY));
+            m.insert("derived".into(), json!(true));
+            out.push(e);
+        }
+    }
+    out.push(json!({"op": "rand_end", "n": n, "threads": threads, "count": count, "ty": T::TY, "out": "ok", "derived": true}));
+}
+
+fn draw<T: Tab>(n: usize) -> Value {
+    let r = std::panic::catch_unwind(|| T::c_random(n));
+    match r {
+        Ok(t) => json!({"op": "random", "n": n, "out": "ok", "post": [{"s": 0, "t": exec::enc(&t)}]}),
+        Err(_) => json!({"op": "random", "n": n, "out": "panic", "post": []}),
     }
 }
 
